@@ -40,6 +40,9 @@ func DecodeCount(c byte) int {
 // the key size, multiple instances of the hash context are created ... these
 // instances are preloaded with 0, 1, 2, ... octets of zeros").
 func context(h HashFunc, ctx int, data []byte) []byte {
+	if ctx == 0 {
+		return h(data) // no preload: the message is the data itself
+	}
 	msg := make([]byte, ctx, ctx+len(data))
 	msg = append(msg, data...)
 	return h(msg)
